@@ -33,15 +33,17 @@ const (
 	opPoolGet
 	opPoolPut
 	opYield
+	opWait
 )
 
-var opNames = [...]string{"start", "Lock", "Unlock", "RLock", "RUnlock", "Pool.Get", "Pool.Put", "Yield"}
+var opNames = [...]string{"start", "Lock", "Unlock", "RLock", "RUnlock", "Pool.Get", "Pool.Put", "Yield", "WaitFor"}
 
 type op struct {
 	kind opKind
 	m    *Mutex
 	rw   *RWMutex
 	tag  string
+	cond func() bool
 }
 
 type thread struct {
@@ -95,6 +97,8 @@ func (t *thread) enabled() bool {
 		return !t.pending.rw.writer && t.pending.rw.readers == 0
 	case opRLock:
 		return !t.pending.rw.writer
+	case opWait:
+		return t.pending.cond()
 	}
 	return true
 }
@@ -148,7 +152,7 @@ func Run(ch Chooser, horizon int, bodies []func()) *Result {
 			for _, t := range e.threads {
 				if !t.done {
 					res.Deadlock = true
-					res.Blocked = append(res.Blocked, fmt.Sprintf("T%d at %s", t.id, opNames[t.pending.kind]))
+					res.Blocked = append(res.Blocked, fmt.Sprintf("T%d at %s %s", t.id, opNames[t.pending.kind], t.pending.tag))
 				}
 			}
 			return res
@@ -218,6 +222,23 @@ func point(o op) bool {
 
 // Yield is an explicit scheduling point for harness-owned code (stream callbacks).
 func Yield(tag string) { point(op{kind: opYield, tag: tag}) }
+
+// WaitFor blocks the running thread until cond holds: harness-owned code that has to wait
+// for something only another thread can bring about (a stream factory waiting for a free
+// slot). The thread is not enabled while cond is false, so waiting while holding a lock that
+// the other threads need shows up as a deadlock. cond is evaluated by the scheduler while
+// every thread is parked. Outside an exploration it returns at once.
+func WaitFor(tag string, cond func() bool) {
+	point(op{kind: opWait, tag: tag, cond: cond})
+}
+
+// CurrentThread is the id of the running controlled thread (-1 outside an exploration).
+func CurrentThread() int {
+	if cur == nil || cur.running == nil {
+		return -1
+	}
+	return cur.running.id
+}
 
 // Exploring reports whether a controlled execution is in progress.
 func Exploring() bool { return cur != nil }
